@@ -21,11 +21,18 @@ The interpreter is tnum.Interp (abstract interpretation over symbolic arrays, se
                    equivalent to `len(args) > 0` (or to its negation) for EVERY number of extra arguments (evaluated)
   leaves           <phi>._value[p,q,r] = φ (p, q, r) (shape (X+2, Y+2, Z+2));   FL(a) = FL applied elementwise
                    (uninterpreted `FL : α → α`, TRUSTED to be elementwise)
-  helpers          a call of a module-level function with parameter objects as arguments (`_upwind_min_max(u, u_upwind)`)
-                   is interpreted inline; `if issubclass(type(u.domain), C)` is decided with the class hierarchy of
-                   mesh.py.  A call with one numeric array (`_fsign(a)`) is translated ONCE as a scalar function
+  helpers          a call of a module-level function (`_upwind_min_max(u, u_upwind)`, or any helper an extract-function
+                   refactoring introduces, also one imported from another module of the package) is interpreted INLINE
+                   by the mechanism of tnum.py (PURE LOCAL HELPERS: same interpreter, fresh environment, Python's argument
+                   binding, undecorated plain `def` whose name is bound once, no recursion, depth ≤ 4) with the BUFFER
+                   DISCIPLINE below: the argument arrays and every view of them are FROZEN buffers inside the helper (an
+                   in-place assignment to them is `untranslated`), and what the helper returns keeps its buffer identity,
+                   so a returned view of a mesh / argument array is still a view for the caller's aliasing checks;
+                   the limiter parameter `FL` may be handed on to a helper.  `if issubclass(type(u.domain), C)` is decided
+                   with the class hierarchy of mesh.py.  `_fsign(a)` (SCALAR_HELPERS) is translated ONCE as a scalar function
                    (`fn_fsign`, default arguments become constants `fn_fsign_<arg>` holding the exact value of the float
-                   literal) and applied elementwise (sound because the body only uses elementwise operations).
+                   literal) and applied elementwise (sound because the body only uses elementwise operations); any OTHER
+                   one-array helper is inlined first and only translated as a scalar function when inlining fails.
   comparisons      elementwise `> < >= <= == !=` give boolean arrays; a boolean array used as a number is
                    `if b then 1 else 0`;  `np.sign(x)` = `if 0 < x then 1 else if x < 0 then -1 else 0`;
                    `np.maximum / np.minimum` = `max / min`
@@ -82,6 +89,8 @@ def shift(pos, n):
 
 
 tnum.shift = shift          # the leaf lambdas of tnum.Interp look the name up in tnum's globals
+tnum.QUIET_HELPERS |= {"_upwind_min_max", "_fsign"}      # not listed under `_helpers` in the status
+SCALAR_HELPERS = {"_fsign"}     # one-argument helpers kept as scalar Lean functions `fn_<name>` (see helper_call)
 
 
 def as_poly(x):
@@ -292,11 +301,13 @@ class UInterp(tnum.Interp):
         super().__init__(mesh, cls, primary)
         self.pars, self.primary, self.vararg, self.has_arg = pars, primary, vararg, has_arg
         self.module, self.helpers, self.frozen = module, helpers, list(frozen)
+        self.primary_lean = pars[primary][1] if primary is not None else None     # its `.domain` is the mesh
 
     # ---- statements
     inert = tinert.analysis(None)
 
     def run(self, fn):
+        self.enter(fn)
         self.inert = tinert.analysis(fn)
         self.exec_block(fn.body)
         if self.result is None:
@@ -568,7 +579,7 @@ class UInterp(tnum.Interp):
             base = self.ev(node.value)
             if isinstance(base, Ref) and base.what[0] == "par":
                 _, lean, kind = base.what
-                if node.attr == "domain" and lean == self.pars[self.primary][1]:
+                if node.attr == "domain" and lean == self.primary_lean:
                     return Ref("mesh")
                 if kind == "face" and node.attr in ("_xvalue", "_yvalue", "_zvalue"):
                     return self.face_leaf2(node.attr, lean)
@@ -728,6 +739,14 @@ class UInterp(tnum.Interp):
             r = super().ev_Call(node)
             r._buf = bufof(v)
             return r
+        if isinstance(f, ast.Name) and f.id in self.env and isinstance(self.env[f.id], Ref) \
+                and self.env[f.id].what[0] == "par" and self.env[f.id].what[2] == "fun":
+            # the limiter handed on to a helper (`def h(FL, r): ... FL(r)`)
+            if node.keywords or len(node.args) != 1:
+                raise Bad(f"call of {f.id}")
+            v = self.as_num(self.ev(node.args[0]))
+            lean = self.env[f.id].what[1]
+            return Arr(v.dims, lambda pos: ("app", lean, v.fn(pos)), raveled=v.raveled)
         if isinstance(f, ast.Name) and f.id not in self.env:
             if f.id in self.pars and self.pars[f.id][0] == "fun":
                 if node.keywords or len(node.args) != 1:
@@ -735,38 +754,63 @@ class UInterp(tnum.Interp):
                 v = self.as_num(self.ev(node.args[0]))
                 lean = self.pars[f.id][1]
                 return Arr(v.dims, lambda pos: ("app", lean, v.fn(pos)), raveled=v.raveled)
-            if f.id in self.helpers.fns:
+            if f.id in self.helpers.fns and f.id not in self.locals:
                 return self.helper_call(f.id, node)
         return super().ev_Call(node)
 
     def helper_call(self, name, node):
-        if node.keywords or any(isinstance(a, ast.Starred) for a in node.args):
-            raise Bad(f"call of {name} with keywords / starred arguments")
-        args = [self.ev(a) for a in node.args]
-        if args and all(isinstance(a, Ref) and a.what[0] == "par" for a in args):
-            fn = self.helpers.fns[name]
-            a = tinert.effective_args(fn)
-            if len(a.args) != len(args) or a.vararg or a.kwarg or a.kwonlyargs or a.defaults:
-                raise Bad(f"call of {name}: signature")
-            sub = UInterp(self.mesh, self.cls, self.pars, self.primary, None, self.has_arg, self.module, self.helpers)
-            sub.ndim = self.ndim
-            for p, v in zip(a.args, args):
-                sub.env[p.arg] = v
-            if not (isinstance(sub.env[a.args[0].arg], Ref) and sub.env[a.args[0].arg].what[1] == self.pars[self.primary][1]):
-                raise Bad(f"call of {name}: the first argument is not the primary parameter")
-            # inside the helper `<first parameter>.domain` is the mesh
-            sub.pars = dict(self.pars)
-            sub.pars[a.args[0].arg] = self.pars[self.primary]
-            sub.primary = a.args[0].arg
-            try:
-                return sub.run(fn)
-            except Bad as ex:
-                raise Bad(f"{name}: {ex}")
-        if len(args) == 1 and (isinstance(args[0], Poly) or (isinstance(args[0], Arr) and args[0].kind in ("num", "bool"))):
-            v = self.as_num(args[0])
-            lean = self.helpers.scalar(name)
-            return Arr(v.dims, lambda pos: ("app", lean, v.fn(pos)), raveled=v.raveled)
-        raise Bad(f"call of {name}: argument kinds")
+        fn = self.helpers.fns[name]
+        r = tnum.resolve_helper(self.modname, name) if self.modname is not None else (fn, None)
+        if r is None or r[0] is not fn:
+            raise Bad(f"call {name}: the name does not denote the module-level function {name}")
+        tnum.check_helper_def(fn)
+        if not node.keywords and len(node.args) == 1 and not isinstance(node.args[0], ast.Starred):
+            arg = self.ev(node.args[0])
+            if isinstance(arg, Poly) or (isinstance(arg, Arr) and arg.kind in ("num", "bool")):
+                # one numeric array.  `_fsign` (SCALAR_HELPERS) is translated ONCE as a scalar Lean function and applied
+                # elementwise (GenEqUpw states its theorems with `fn_fsign`); any other such helper is inlined like every
+                # helper (the formula keeps the shape it had before the extraction) and only translated as a scalar
+                # function when inlining fails
+                first, second = ((self.scalar_app, self.inline_app) if name in SCALAR_HELPERS
+                                 else (self.inline_app, self.scalar_app))
+                try:
+                    return first(fn, name, node, arg)
+                except Bad as ex:
+                    try:
+                        return second(fn, name, node, arg)
+                    except Bad as ex2:
+                        raise Bad(f"{ex} (and: {ex2})")
+        # everything else (`_upwind_min_max(u, u_upwind)`, array arguments, keywords, defaults): interpreted inline
+        return self.call_helper(fn, self.modname, node)
+
+    def scalar_app(self, fn, name, node, arg):
+        lean = self.helpers.scalar(name)
+        v = self.as_num(arg)
+        return Arr(v.dims, lambda pos: ("app", lean, v.fn(pos)), raveled=v.raveled)
+
+    def inline_app(self, fn, name, node, arg):
+        return self.call_helper(fn, self.modname, node)
+
+    # ---- pure local helpers (tnum.Interp.call_helper): same interpreter, fresh environment, arguments frozen
+    def is_param_name(self, name):
+        return name in self.pars or (self.vararg is not None and name == self.vararg)
+
+    def spawn_helper(self, fn, modname):
+        same = modname == self.modname
+        sub = UInterp(self.mesh, self.cls, {}, None, None, self.has_arg, tnum.MODULES.get(modname, self.module),
+                      self.helpers if same else NO_HELPERS, frozen=self.frozen)
+        sub.primary_lean = self.primary_lean
+        self.init_helper(sub, modname)
+        return sub
+
+    def arrays_in(self, v):
+        return arrs_in(v)
+
+    def freeze(self, sub, values):
+        super().freeze(sub, values)
+        # buffer discipline: the argument arrays (and the views of them) are frozen buffers inside the helper; what it
+        # returns keeps its buffer identity, so the caller's aliasing checks see a returned view as a view
+        sub.frozen = list(sub.frozen) + [bufof(x) for v in values for x in self.arrays_in(v)]
 
     def np_call(self, name, node):
         if node.keywords:
@@ -803,6 +847,13 @@ class UInterp(tnum.Interp):
         return super().np_call(name, node)
 
 
+class NoHelpers:
+    fns = {}
+
+
+NO_HELPERS = NoHelpers()
+
+
 class Helpers:
     """module-level helper functions; scalar translations are cached and emitted once"""
 
@@ -818,6 +869,7 @@ class Helpers:
             return self.done[name]
         self.done[name] = None
         fn = self.fns[name]
+        tnum.check_helper_def(fn)
         a = tinert.effective_args(fn)
         if a.vararg or a.kwarg or a.kwonlyargs or len(a.args) < 1 or len(a.defaults) != len(a.args) - 1:
             raise Bad(f"{name}: signature")
@@ -1036,7 +1088,7 @@ def generate(repo):
     tinert.set_repo(repo)
 
     def parse(f):
-        return tnum.note_module(ast.parse(open(os.path.join(src, f)).read()))
+        return tnum.parse_module(src, f)
     status = {}
     mesh = MeshInfo(parse("mesh.py"))
     tree = parse("advection.py")
@@ -1082,7 +1134,7 @@ def main():
     repo = os.environ.get("VERIF_REPO", "/repo")
     dst = sys.argv[1]
     text, status = generate(repo)
-    status = tinert.annotate(status)
+    status = tnum.annotate_helpers(tinert.annotate(status))
     write_if_changed(dst, text)
     base = os.path.splitext(os.path.basename(dst))[0].lower()
     write_if_changed(os.path.join(os.path.dirname(os.path.abspath(dst)), f"{base}_status.json"),
